@@ -185,10 +185,14 @@ func c06StepState(b uint8, L uint8, I uint64, a chainhash.Hash) *RevocationStore
 			st.buckets[i] = element{index: index(I + uint64(1)<<i), hash: c06Flip(a, uint(i))}
 			continue
 		}
-		e := element{index: index(vU64("bucketIndex")), hash: c06Hash("bucketHash")}
+		e := element{hash: c06Hash("bucketHash")}
 		if i < L {
-			// G(I): a used bucket holds an already received index
-			vAssume(uint64(e.index) > I && uint64(e.index) <= c06Top)
+			// G(I): a used bucket i holds an already received index with
+			// exactly i trailing zeros
+			e.index = index(c06Index48(vU64("bucketHi"), i))
+			vAssume(uint64(e.index) > I)
+		} else {
+			e.index = index(vU64("bucketIndex"))
 		}
 		st.buckets[i] = e
 	}
@@ -220,11 +224,21 @@ func c06StepDomain() (b uint8, L uint8, I uint64) {
 			vAssume(false)
 		}
 	}
-	I = vU64("I")
-	vAssume(I <= c06Top)
-	vAssume(I&(uint64(1)<<(b+1)-1) == uint64(1)<<b)   // exactly b trailing zeros
+	I = c06Index48(vU64("Ihi"), b) // any 48-bit index with exactly b trailing zeros
 	vAssume(c06BitLenSym(c06Top-I) == L)               // L values stored after 2^48-1-I secrets
 	return b, L, I
+}
+
+// c06WithCtz returns hi*2^(z+1) + 2^z: every 64-bit number with exactly z
+// trailing zeros (z < 64) is of this form for some hi, and only those.
+func c06WithCtz(hi uint64, z uint8) uint64 {
+	return hi<<(z+1) | uint64(1)<<z
+}
+
+// c06Index48 returns every 48-bit index with exactly z trailing zeros
+// (z < 48): hi is cut to its low 47-z bits.
+func c06Index48(hi uint64, z uint8) uint64 {
+	return c06WithCtz(hi&(uint64(1)<<(47-z)-1), z)
 }
 
 // c06BitLenSym is c06BitLen without data-dependent control flow (the argument
@@ -305,4 +319,202 @@ func VerifC06Step() {
 	vAssume(u > c06Top-I)
 	_, errU := st.LookUp(u)
 	vAssert(errU != nil, "step: a secret that was not received cannot be looked up")
+}
+
+// The last index of the chain: I = 0 (48 trailing zeros), i.e. the 2^48-th
+// secret. BOLT-3 stores it as the 49th value. The pre-state is G(0): all 48
+// buckets in use, bucket i = (2^i, flip-and-hash(a, i)); it is taken through
+// Encode / NewRevocationStoreFromBytes first, i.e. it is what lnd reads back
+// from its database before the last revocation arrives.
+func VerifC06StepLast() {
+	vUnwind(4096)
+	a := c06Hash("a")
+	st := &RevocationStore{lenBuckets: maxHeight, index: 0}
+	for i := uint8(0); i < maxHeight; i++ {
+		st.buckets[i] = element{index: index(uint64(1) << i), hash: c06Flip(a, uint(i))}
+	}
+	st = c06RoundTrip(st)
+	if st == nil {
+		return
+	}
+	vReach("pre-state")
+	if err := st.AddNextEntry(&a); err != nil {
+		vAssert(false, "last: the secret of index 0 (consistent with all 48 stored ones) is accepted")
+		return
+	}
+	got, err := st.LookUp(c06Top)
+	if err != nil || got == nil {
+		vAssert(false, "last: the secret of index 0 can be looked up")
+		return
+	}
+	vAssert(*got == a, "last: the looked-up secret of index 0 equals the received one")
+	vReach("accept")
+}
+
+// ---------------------------------------------------------------------------
+// (2b) LookUp in the state the step leaves behind: after the secret of I
+// (b trailing zeros) was stored, every index of I's subtree [I, I+2^b) is
+// reproduced as BOLT-3 generates it from that secret. The low b bits of the
+// target are sampled structurally: a window of w symbolic bits at position s,
+// the remaining low bits all 0 or all 1.
+// ---------------------------------------------------------------------------
+
+// c06Window draws the low bits (below z) of a target: returns them and z' = z.
+func c06Window(z uint8, deep int) uint64 {
+	if z == 0 {
+		return 0
+	}
+	w := uint8(3)
+	if deep == 1 {
+		w = 4
+	}
+	if w > z {
+		w = z
+	}
+	// window positions: quick {0, z-w}; thorough 0, w, 2w, ... and z-w
+	var s uint8
+	if deep == 0 {
+		if vChoice("win", 2) == 1 {
+			s = z - w
+		}
+	} else {
+		k := uint8(vChoice("win", 13))
+		if k == 12 {
+			s = z - w
+		} else {
+			s = k * w
+			if s+w > z {
+				vAssume(false)
+			}
+		}
+	}
+	fill := vChoice("fill", 2)
+	pat := uint64(vU8("pattern")) & (uint64(1)<<w - 1)
+	low := pat << s
+	if fill == 1 {
+		low |= (uint64(1)<<z - 1) &^ ((uint64(1)<<w - 1) << s)
+	}
+	return low
+}
+
+func VerifC06LookupSubtree() {
+	vUnwind(4096)
+	deep := vChoice("deep", 2)
+	b := uint8(vChoice("b", 48))
+	I := c06Index48(vU64("Ihi"), b)
+	a := c06Hash("a")
+	// the state asserted by VerifC06Step after storing (I, a); buckets above b
+	// are not consulted before a lower one answers and stay unused here
+	st := &RevocationStore{lenBuckets: b + 1, index: index(I - 1)}
+	for i := uint8(0); i < b; i++ {
+		st.buckets[i] = element{index: index(I + uint64(1)<<i), hash: c06Flip(a, uint(i))}
+	}
+	st.buckets[b] = element{index: index(I), hash: a}
+
+	low := c06Window(b, deep)
+	T := I | low
+	want := c06Generate(a, uint(b), low)
+	got, err := st.LookUp(c06Top - T)
+	if err != nil || got == nil {
+		vAssert(false, "subtree: every index below the stored one can be looked up")
+		return
+	}
+	vAssert(*got == want, "subtree: looked-up secret equals BOLT-3 derivation from the stored secret")
+	vReach("found")
+}
+
+// ---------------------------------------------------------------------------
+// (3) element.derive / index.deriveBitTransformations against the plain
+// definition of the BOLT-3 tree.
+//   mode 0 (full width): for ALL 64-bit pairs (from, to) with to outside
+//     from's subtree, or to == from: derivation succeeds iff to is in the
+//     subtree.
+//   mode 1: to inside the subtree (from any 64-bit index with z trailing
+//     zeros, z capped at 48): succeeds, positions are exactly the bits in which
+//     to differs from from in descending order, derived secret = BOLT-3.
+//     Low bits of `to` sampled by window as above.
+// ---------------------------------------------------------------------------
+
+func c06InSubtree(from, to uint64) bool {
+	// size of from's subtree: its lowest set bit, capped at 2^48 (tree height)
+	span := from & (^from + 1)
+	if span == 0 || span > uint64(1)<<48 {
+		span = uint64(1) << 48
+	}
+	return to >= from && to-from < span
+}
+
+func c06CheckPositions(from, to uint64, z uint8) {
+	pos, err := index(from).deriveBitTransformations(index(to))
+	if err != nil {
+		vAssert(false, "derive: bit transformations exist for a target inside the subtree")
+		return
+	}
+	acc := from
+	prev := uint8(64)
+	for _, p := range pos {
+		vAssert(p < prev && p < z, "derive: positions strictly descending and below ctz(from)")
+		prev = p
+		acc |= uint64(1) << p
+	}
+	vAssert(acc == to, "derive: flipping the returned positions turns from into to")
+}
+
+func VerifC06Derive() {
+	vUnwind(4096)
+	g := c06Hash("g")
+	if vChoice("mode", 2) == 0 {
+		from, to := vU64("from"), vU64("to")
+		in := c06InSubtree(from, to)
+		vAssume(!in || to == from)
+		e := &element{index: index(from), hash: g}
+		r, err := e.derive(index(to))
+		vAssert((err == nil) == in, "derive: succeeds iff the target is in the subtree")
+		_, err2 := index(from).deriveBitTransformations(index(to))
+		vAssert((err2 == nil) == in, "deriveBitTransformations: succeeds iff the target is in the subtree")
+		if err == nil && r != nil {
+			vReach("same-index")
+			vAssert(uint64(r.index) == to && r.hash == g, "derive: an index derives itself unchanged")
+		} else {
+			vReach("rejected")
+		}
+		return
+	}
+	deep := vChoice("deep", 2)
+	z := uint8(vChoice("z", 49))
+	var from uint64
+	if z < 48 {
+		from = c06WithCtz(vU64("fromHi"), z) // any 64-bit index with z trailing zeros
+	} else {
+		from = vU64("fromHi") << 48 // 48 or more trailing zeros: the tree is 48 high
+	}
+	low := c06Window(z, deep)
+	to := from | low
+	vAssert(c06InSubtree(from, to), "derive: sampled target is inside the subtree (self-check of the oracle)")
+	e := &element{index: index(from), hash: g}
+	r, err := e.derive(index(to))
+	if err != nil || r == nil {
+		vAssert(false, "derive: succeeds for a target inside the subtree")
+		return
+	}
+	vAssert(uint64(r.index) == to, "derive: result carries the target index")
+	vAssert(r.hash == c06Generate(g, uint(z), low), "derive: derived secret equals BOLT-3 derivation")
+	c06CheckPositions(from, to, z)
+	vReach("derived")
+}
+
+// ---------------------------------------------------------------------------
+// (codec) any store content survives Encode / NewRevocationStoreFromBytes.
+// ---------------------------------------------------------------------------
+
+func VerifC06Codec() {
+	vUnwind(4096)
+	L := uint8(vChoice("L", 49))
+	st := &RevocationStore{lenBuckets: L, index: index(vU64("index"))}
+	for i := uint8(0); i < L; i++ {
+		st.buckets[i] = element{index: index(vU64("bucketIndex")), hash: c06Hash("bucketHash")}
+	}
+	if c06RoundTrip(st) != nil {
+		vReach("roundtrip")
+	}
 }
